@@ -188,7 +188,10 @@ def readIsNone (dt : DT) (v : SV) : Bool :=
   else false
 
 /-- `replaceNonesWithNonsense` on a 1-D object array of scalars and Nones (all non-None of one type):
-returns the typed array, or `none` for the TypeError/ValueError paths -/
+returns the typed array, or `none` for the TypeError/ValueError paths. Since fix 045c8d0 the code converts to the
+common type of all values when that type has a sentinel (and the first value is not a Python bool); for a column of ONE
+type that is the type itself (Python int/float become np.int64/np.float64, which carry the same sentinel), so this
+transcription is unchanged; mixed-type columns are outside the modelled domain (directed behaviour table in c05.py). -/
 def replaceNones (xs : List Entry) : Option (DT × List SV) :=
   match xs.find? (fun e => !isNone e) with
   | some (.scal np dt _) =>
